@@ -12,7 +12,7 @@ Part C (correspondence/oracle only — the printers/parsers of descriptors, poli
   modelled in Coq): differential round trips on the real code with an independent structural dump.
 Part D (proof): miniscript text layer — model MsTextModel.v of Display for Terminal (to_tree) and of
   FromTree for Miniscript (from_tree), theorems C10_ms_print_parse / C10_ms_print_fixpoint /
-  C10_ms_parse_valid / C10_ms_alias_meaning; tie: Tree::from_str + Miniscript::from_tree + Display in the
+  C10_ms_parse_valid / C10_ms_alias_meaning, composed with Part B: C10_ms_text_roundtrip / C10_ms_text_fixpoint; tie: Tree::from_str + Miniscript::from_tree + Display in the
   four contexts on generated (three spellings), exhaustive wrapper-prefix, directed malformed and edited
   texts, compared with the model inside Coq (Tables/MsTextCasesCheck.v)."""
 import json, os, re
@@ -448,5 +448,5 @@ def run(rep, tier, seed, replay):
         "ChecksumModel.v transcribes checksum.rs and the bech32 engine it instantiates (tied on every run by the complete 1-/2-character tables and random strings)",
         "the BIP-380 reference algorithm in ChecksumModel.v (bip380_*) is a transcription of the BIP's Python",
         "MsTextModel.v transcribes display.rs (as_node, fragment_name, conditional_fmt) and Miniscript::from_tree with the expression helpers it calls (tied on every run by Tables/MsTextCasesCheck.v)",
-        "miniscript text theorems: keys and hashes are opaque atoms whose parser inverts their printer (parse (print x) = Some x); Miniscript::from_ast is an arbitrary boolean check (the type check in the tie)",
+        "miniscript text theorems: keys and hashes are opaque atoms whose parser inverts their printer (parse (print x) = Some x) and, for the text-level theorems, whose printed form consists of name characters; Miniscript::from_ast is an arbitrary boolean check (the type check in the tie)",
     ]
